@@ -821,6 +821,772 @@ example : (run {} [.arrive 9 1, .thread 0, .thread 0, .arrive 7 2, .thread 1, .a
 
 end Inst
 
+/-! ### between `SendToTreeNode` and the destination's dispatcher: routers and connection tables -/
+namespace Net
+
+theorem countP_set_gen {α : Type} {p : α → Bool} {l : List α} {i : Nat} {t t' : α} (h : l[i]? = some t) :
+    (l.set i t').countP p + (if p t then 1 else 0) = l.countP p + (if p t' then 1 else 0) := by
+  have hi : i < l.length := by
+    rcases Nat.lt_or_ge i l.length with h' | h'
+    · exact h'
+    · simp [List.getElem?_eq_none h'] at h
+  have ht : l[i] = t := by simpa [List.getElem?_eq_getElem hi] using h
+  have := List.boole_getElem_le_countP (p := p) hi
+  rw [List.countP_set hi, ht] at *
+  omega
+
+theorem countP_eraseIdx_gen {α : Type} {p : α → Bool} {l : List α} {j : Nat} {x : α} (h : l[j]? = some x) :
+    (l.eraseIdx j).countP p + (if p x then 1 else 0) = l.countP p := by
+  induction l generalizing j with
+  | nil => simp at h
+  | cons y ys ih =>
+    cases j with
+    | zero =>
+      simp at h; subst h
+      simp [List.countP_cons]
+    | succ j =>
+      simp at h
+      have := ih h
+      simp only [List.eraseIdx_cons_succ, List.countP_cons]
+      omega
+
+/-- the `Send` call `t` still has envelope `(a → b, v)` in its hands -/
+def carrying (a b v : Nat) (t : Th) : Bool := t.src == a && t.dst == b && t.v == v && t.pc != .done
+/-- envelope `(a → b, v)` in flight -/
+def flying (a b v : Nat) (f : Flight) : Bool := f.src == a && f.dst == b && f.v == v
+
+/-- conservation: every `Send(a → b, v)` is in exactly one place — dispatched at `b` with identity `a`,
+in flight towards `b`, or still in the hands of its `Send` call -/
+def Cons (s : St) : Prop :=
+  ∀ a b v, s.sent.count (a, b, v) =
+    s.dispatched.count (b, a, v) + s.wire.countP (flying a b v) + s.thr.countP (carrying a b v)
+
+theorem count_snoc3 (l : List (Nat × Nat × Nat)) (x1 x2 x3 y1 y2 y3 : Nat) :
+    (l ++ [(x1, x2, x3)]).count (y1, y2, y3) = l.count (y1, y2, y3) + (if x1 = y1 ∧ x2 = y2 ∧ x3 = y3 then 1 else 0) := by
+  by_cases e : x1 = y1 ∧ x2 = y2 ∧ x3 = y3
+  · obtain ⟨rfl, rfl, rfl⟩ := e; simp [List.count_append]
+  · have : ¬ ((y1, y2, y3) = (x1, x2, x3)) := by
+      intro h; apply e; cases h; exact ⟨rfl, rfl, rfl⟩
+    simp [List.count_append, List.count_singleton, e, this]
+
+theorem carrying_move {l : List Th} {i : Nat} {t : Th} (h : l[i]? = some t) (p' : SPc) (a b v : Nat) :
+    (l.set i { t with pc := p' }).countP (carrying a b v)
+        + (if t.src = a ∧ t.dst = b ∧ t.v = v ∧ t.pc ≠ .done then 1 else 0)
+      = l.countP (carrying a b v) + (if t.src = a ∧ t.dst = b ∧ t.v = v ∧ p' ≠ .done then 1 else 0) := by
+  have := countP_set_gen (p := carrying a b v) (t' := { t with pc := p' }) h
+  simpa [carrying, and_assoc] using this
+
+theorem cons_thread (s : St) (i : Nat) (t : Th) (hc : Cons s) (ht : s.thr[i]? = some t) (hnd : t.pc ≠ .done) :
+    Cons (stepTh s i t) := by
+  intro a b v
+  have h0 := hc a b v
+  obtain ⟨src, dst, vv, pc⟩ := t
+  simp only at hnd
+  cases pc with
+  | done => exact absurd rfl hnd
+  | lookup =>
+    simp only [stepTh]
+    by_cases hself : src = dst
+    · subst hself
+      simp only [if_true]
+      have hm := carrying_move ht .done a b v
+      simp only at hm
+      show s.sent.count (a, b, v) = (s.dispatched ++ [(src, src, vv)]).count (b, a, v) + s.wire.countP (flying a b v) + _
+      rw [count_snoc3]
+      by_cases e : src = a ∧ src = b ∧ vv = v
+      · obtain ⟨e1, e2, e3⟩ := e
+        have e' : src = b ∧ src = a ∧ vv = v := ⟨e2, e1, e3⟩
+        have e'' : src = a ∧ src = b ∧ vv = v ∧ SPc.lookup ≠ SPc.done := ⟨e1, e2, e3, by decide⟩
+        rw [if_pos e']
+        rw [if_pos e''] at hm
+        simp at hm
+        omega
+      · have e' : ¬ (src = b ∧ src = a ∧ vv = v) := fun h => e ⟨h.2.1, h.1, h.2.2⟩
+        have e'' : ¬ (src = a ∧ src = b ∧ vv = v ∧ SPc.lookup ≠ SPc.done) := fun h => e ⟨h.1, h.2.1, h.2.2.1⟩
+        rw [if_neg e']
+        rw [if_neg e''] at hm
+        simp at hm
+        omega
+    · simp only [hself, if_false]
+      cases hh : (s.table src dst).head? with
+      | none =>
+        have hm := carrying_move ht .dial a b v
+        simp at hm
+        show s.sent.count (a, b, v) = s.dispatched.count (b, a, v) + s.wire.countP (flying a b v)
+          + (s.thr.set i ⟨src, dst, vv, .dial⟩).countP (carrying a b v)
+        omega
+      | some k =>
+        have hm := carrying_move ht (.xmit k) a b v
+        simp at hm
+        show s.sent.count (a, b, v) = s.dispatched.count (b, a, v) + s.wire.countP (flying a b v)
+          + (s.thr.set i ⟨src, dst, vv, .xmit k⟩).countP (carrying a b v)
+        omega
+  | dial =>
+    have hm := carrying_move ht (.reg s.nconn) a b v
+    simp at hm
+    show s.sent.count (a, b, v) = s.dispatched.count (b, a, v) + s.wire.countP (flying a b v) + _
+    simp only [stepTh]; omega
+  | reg k =>
+    have hm := carrying_move ht (.xmit k) a b v
+    simp at hm
+    show s.sent.count (a, b, v) = s.dispatched.count (b, a, v) + s.wire.countP (flying a b v) + _
+    simp only [stepTh]; omega
+  | xmit k =>
+    have hm := carrying_move ht .done a b v
+    simp only at hm
+    simp only [stepTh]
+    show s.sent.count (a, b, v) = s.dispatched.count (b, a, v) + (s.wire ++ [(⟨k, src, dst, vv⟩ : Flight)]).countP (flying a b v) + _
+    rw [List.countP_append]
+    by_cases e : src = a ∧ dst = b ∧ vv = v
+    · obtain ⟨e1, e2, e3⟩ := e
+      subst e1; subst e2; subst e3
+      simp [flying] at hm ⊢
+      omega
+    · have e'' : ¬ (src = a ∧ dst = b ∧ vv = v ∧ SPc.xmit k ≠ SPc.done) := fun h => e ⟨h.1, h.2.1, h.2.2.1⟩
+      rw [if_neg e''] at hm
+      have hf : flying a b v ⟨k, src, dst, vv⟩ = false := by
+        simp only [flying]
+        by_cases e1 : src = a
+        · by_cases e2 : dst = b
+          · have : vv ≠ v := fun h => e ⟨e1, e2, h⟩
+            simp [e1, e2, this]
+          · simp [e1, e2]
+        · simp [e1]
+      simp [hf] at hm ⊢
+      omega
+
+theorem cons_step (s s' : St) (a : Act) (hc : Cons s) (hs : step s a = some s') : Cons s' := by
+  cases a with
+  | send src dst v =>
+    simp [step] at hs; subst hs
+    intro a b w
+    have h0 := hc a b w
+    show (s.sent ++ [(src, dst, v)]).count (a, b, w) = s.dispatched.count (b, a, w) + s.wire.countP (flying a b w)
+      + (s.thr ++ [(⟨src, dst, v, .lookup⟩ : Th)]).countP (carrying a b w)
+    rw [count_snoc3, List.countP_append]
+    by_cases e : src = a ∧ dst = b ∧ v = w
+    · obtain ⟨e1, e2, e3⟩ := e; subst e1; subst e2; subst e3
+      simp [carrying]; omega
+    · have hcr : carrying a b w ⟨src, dst, v, .lookup⟩ = false := by
+        simp only [carrying]
+        by_cases e1 : src = a
+        · by_cases e2 : dst = b
+          · have : v ≠ w := fun h => e ⟨e1, e2, h⟩
+            simp [e1, e2, this]
+          · simp [e1, e2]
+        · simp [e1]
+      simp [e, hcr]; omega
+  | thread i =>
+    simp only [step] at hs
+    split at hs
+    · rename_i t ht
+      split at hs
+      · simp at hs
+      · simp at hs; subst hs; exact cons_thread s i t hc ht ‹_›
+    · simp at hs
+  | accept j =>
+    simp only [step] at hs
+    split at hs
+    · simp at hs; subst hs; exact hc
+    · simp at hs
+  | recv j =>
+    simp only [step] at hs
+    split at hs
+    · rename_i f hf
+      split at hs
+      · simp at hs; subst hs
+        intro a b v
+        have h0 := hc a b v
+        have he := countP_eraseIdx_gen (p := flying a b v) hf
+        show s.sent.count (a, b, v) = (s.dispatched ++ [(f.dst, f.src, f.v)]).count (b, a, v)
+          + (s.wire.eraseIdx j).countP (flying a b v) + s.thr.countP (carrying a b v)
+        rw [count_snoc3]
+        by_cases e : f.dst = b ∧ f.src = a ∧ f.v = v
+        · obtain ⟨e1, e2, e3⟩ := e
+          have : flying a b v f = true := by simp [flying, e1, e2, e3]
+          simp [this] at he
+          simp [e1, e2, e3]; omega
+        · have : flying a b v f = false := by
+            simp only [flying]
+            by_cases e1 : f.src = a
+            · by_cases e2 : f.dst = b
+              · have : f.v ≠ v := fun h => e ⟨e2, e1, h⟩
+                simp [e1, e2, this]
+              · simp [e1, e2]
+            · simp [e1]
+          simp [this] at he
+          simp [e]; omega
+      · simp at hs
+    · simp at hs
+
+theorem cons_run (as : List Act) (s : St) (h : Cons s) : Cons (run s as) := by
+  induction as generalizing s with
+  | nil => exact h
+  | cons a as ih =>
+    simp only [run]
+    split
+    · exact ih _ (cons_step _ _ _ h ‹_›)
+    · exact ih _ h
+
+/-- **conservation on the way between servers**: under every schedule of `Send` calls (any number,
+concurrent, to any peers, to the server itself), dials, listener callbacks and receptions, each
+envelope handed to `Send(a → b)` is in exactly one place: dispatched at `b` — carrying `a` as the
+identity of its sender —, in flight towards `b`, or still in the hands of its `Send` call.  Never
+duplicated, never dropped, never at a third server, however many connections the two servers have
+with each other. -/
+theorem c01_net_conservation (as : List Act) (a b v : Nat) :
+    let s := run {} as
+    s.sent.count (a, b, v) = s.dispatched.count (b, a, v) + s.wire.countP (flying a b v) + s.thr.countP (carrying a b v) :=
+  cons_run as {} (by intro a b v; simp) a b v
+
+/-! nothing gets stuck between two servers: every connection has (or is about to get) both ends -/
+structure Live (s : St) : Prop where
+  /-- a call that dialled `k` and has not registered it yet: the listener callback is pending or has run -/
+  regPending : ∀ t ∈ s.thr, ∀ k, t.pc = .reg k → (k, t.src, t.dst) ∈ s.dialed ∨ k ∈ s.table t.dst t.src
+  /-- a call about to write on `k` has `k` in its own table -/
+  xmitReg : ∀ t ∈ s.thr, ∀ k, t.pc = .xmit k → k ∈ s.table t.src t.dst
+  /-- a table entry has its counterpart at the peer: registered, waiting for the listener callback, or
+  dialled by the peer and about to be registered there -/
+  tableMate : ∀ a b k, k ∈ s.table a b →
+    k ∈ s.table b a ∨ (k, a, b) ∈ s.dialed ∨ ∃ t ∈ s.thr, t.src = b ∧ t.dst = a ∧ t.pc = .reg k
+  /-- a pending dial: the dialler has registered the connection or is about to -/
+  dialMate : ∀ k a b, (k, a, b) ∈ s.dialed → k ∈ s.table a b ∨ ∃ t ∈ s.thr, t.src = a ∧ t.dst = b ∧ t.pc = .reg k
+  /-- an envelope in flight will be received: its destination has the connection, or will have it -/
+  flightMate : ∀ f ∈ s.wire, f.k ∈ s.table f.dst f.src ∨ (f.k, f.src, f.dst) ∈ s.dialed ∨
+    ∃ t ∈ s.thr, t.src = f.dst ∧ t.dst = f.src ∧ t.pc = .reg f.k
+
+theorem live_init : Live {} := by
+  constructor <;> simp
+
+theorem mem_addConn (tb : Nat → Nat → List Nat) (s p k a b x : Nat) :
+    x ∈ addConn tb s p k a b ↔ x ∈ tb a b ∨ (a = s ∧ b = p ∧ x = k) := by
+  unfold addConn
+  by_cases h : a = s ∧ b = p
+  · obtain ⟨rfl, rfl⟩ := h; simp
+  · simp only [h, if_false]
+    constructor
+    · exact fun hx => .inl hx
+    · rintro (hx | ⟨e1, e2, _⟩)
+      · exact hx
+      · exact absurd ⟨e1, e2⟩ h
+
+theorem mem_set_other {l : List Th} {i : Nat} {t t' x : Th} (hx : x ∈ l) (ht : l[i]? = some t) (hne : x ≠ t) :
+    x ∈ l.set i t' := by
+  obtain ⟨j, hj, rfl⟩ := List.mem_iff_getElem.mp hx
+  have hij : i ≠ j := by
+    intro e; subst e
+    simp [List.getElem?_eq_getElem hj] at ht
+    exact hne ht
+  have hj' : j < (l.set i t').length := by simpa using hj
+  have : (l.set i t')[j] = l[j] := by simp [List.getElem_set, hij]
+  rw [← this]; exact List.getElem_mem hj'
+
+theorem mem_set_cases {l : List Th} {i : Nat} {t' x : Th} (h : x ∈ l.set i t') : x = t' ∨ x ∈ l := by
+  rcases List.mem_or_eq_of_mem_set h with h | h
+  · exact .inr h
+  · exact .inl h
+
+theorem mem_eraseIdx_other {α : Type} {l : List α} {j : Nat} {y x : α} (hx : x ∈ l) (hy : l[j]? = some y) (hne : x ≠ y) :
+    x ∈ l.eraseIdx j := by
+  induction l generalizing j with
+  | nil => simp at hx
+  | cons z zs ih =>
+    cases j with
+    | zero =>
+      simp at hy; subst hy
+      simp at hx
+      rcases hx with e | h
+      · exact absurd e hne
+      · simpa using h
+    | succ j =>
+      simp at hy
+      simp only [List.eraseIdx_cons_succ, List.mem_cons]
+      simp at hx
+      rcases hx with e | h
+      · exact .inl e
+      · exact .inr (ih h hy)
+
+theorem mem_of_mem_eraseIdx {α : Type} {l : List α} {j : Nat} {x : α} (hx : x ∈ l.eraseIdx j) : x ∈ l :=
+  List.mem_of_mem_eraseIdx hx
+
+/-- a step of a `Send` call that neither leaves nor enters a `reg` pc and changes only the thread list -/
+theorem live_thread_plain (s : St) (i : Nat) (t : Th) (p' : SPc) (hL : Live s) (ht : s.thr[i]? = some t)
+    (hfrom : ∀ k, t.pc ≠ .reg k) (hto : ∀ k, p' ≠ .reg k)
+    (hxm : ∀ k, p' = .xmit k → k ∈ s.table t.src t.dst) :
+    Live { s with thr := s.thr.set i { t with pc := p' } } := by
+  obtain ⟨h1, h2, h3, h4, h5⟩ := hL
+  have keep : ∀ x ∈ s.thr, (∃ k, x.pc = .reg k) → x ∈ s.thr.set i { t with pc := p' } := by
+    intro x hx ⟨k, hk⟩
+    refine mem_set_other hx ht ?_
+    intro e; subst e; exact hfrom k hk
+  refine ⟨?_, ?_, ?_, ?_, ?_⟩
+  · intro x hx k hk
+    rcases mem_set_cases hx with e | hm
+    · subst e; exact absurd hk (hto k)
+    · exact h1 x hm k hk
+  · intro x hx k hk
+    rcases mem_set_cases hx with e | hm
+    · subst e; exact hxm k hk
+    · exact h2 x hm k hk
+  · intro a b k hk
+    rcases h3 a b k hk with h | h | ⟨x, hx, e1, e2, e3⟩
+    · exact .inl h
+    · exact .inr (.inl h)
+    · exact .inr (.inr ⟨x, keep x hx ⟨k, e3⟩, e1, e2, e3⟩)
+  · intro k a b hk
+    rcases h4 k a b hk with h | ⟨x, hx, e1, e2, e3⟩
+    · exact .inl h
+    · exact .inr ⟨x, keep x hx ⟨k, e3⟩, e1, e2, e3⟩
+  · intro f hf
+    rcases h5 f hf with h | h | ⟨x, hx, e1, e2, e3⟩
+    · exact .inl h
+    · exact .inr (.inl h)
+    · exact .inr (.inr ⟨x, keep x hx ⟨f.k, e3⟩, e1, e2, e3⟩)
+
+theorem live_thread (s : St) (i : Nat) (t : Th) (hL : Live s) (ht : s.thr[i]? = some t) (hnd : t.pc ≠ .done) :
+    Live (stepTh s i t) := by
+  have htm : t ∈ s.thr := List.mem_of_getElem? ht
+  obtain ⟨src, dst, vv, pc⟩ := t
+  simp only at hnd
+  cases pc with
+  | done => exact absurd rfl hnd
+  | lookup =>
+    simp only [stepTh]
+    by_cases hself : src = dst
+    · simp only [hself, if_true]
+      have := live_thread_plain s i ⟨src, dst, vv, .lookup⟩ .done hL ht (by intro k; simp) (by intro k; simp) (by intro k h; simp at h)
+      obtain ⟨h1, h2, h3, h4, h5⟩ := this
+      subst hself
+      exact ⟨h1, h2, h3, h4, h5⟩
+    · simp only [hself, if_false]
+      cases hh : (s.table src dst).head? with
+      | none =>
+        exact live_thread_plain s i ⟨src, dst, vv, .lookup⟩ .dial hL ht (by intro k; simp) (by intro k; simp) (by intro k h; simp at h)
+      | some k =>
+        refine live_thread_plain s i ⟨src, dst, vv, .lookup⟩ (.xmit k) hL ht (by intro k; simp) (by intro k; simp) ?_
+        intro k' e; simp at e; subst e
+        exact List.mem_of_mem_head? hh
+  | dial =>
+    simp only [stepTh]
+    obtain ⟨h1, h2, h3, h4, h5⟩ := hL
+    have keep : ∀ x ∈ s.thr, (∃ k, x.pc = .reg k) → x ∈ s.thr.set i ⟨src, dst, vv, .reg s.nconn⟩ := by
+      intro x hx ⟨k, hk⟩
+      refine mem_set_other hx ht ?_
+      intro e; subst e; simp at hk
+    have me : (⟨src, dst, vv, .reg s.nconn⟩ : Th) ∈ s.thr.set i ⟨src, dst, vv, .reg s.nconn⟩ := by
+      have hi : i < s.thr.length := by
+        rcases Nat.lt_or_ge i s.thr.length with h' | h'
+        · exact h'
+        · simp [List.getElem?_eq_none h'] at ht
+      exact List.mem_set hi _
+    refine ⟨?_, ?_, ?_, ?_, ?_⟩
+    · intro x hx k hk
+      rcases mem_set_cases hx with e | hm
+      · subst e; simp at hk; subst hk; left; simp
+      · rcases h1 x hm k hk with h | h
+        · left; simp [h]
+        · right; exact h
+    · intro x hx k hk
+      rcases mem_set_cases hx with e | hm
+      · subst e; simp at hk
+      · exact h2 x hm k hk
+    · intro a b k hk
+      rcases h3 a b k hk with h | h | ⟨x, hx, e1, e2, e3⟩
+      · exact .inl h
+      · right; left; simp [h]
+      · exact .inr (.inr ⟨x, keep x hx ⟨k, e3⟩, e1, e2, e3⟩)
+    · intro k a b hk
+      simp at hk
+      rcases hk with hk | ⟨rfl, rfl, rfl⟩
+      · rcases h4 k a b hk with h | ⟨x, hx, e1, e2, e3⟩
+        · exact .inl h
+        · exact .inr ⟨x, keep x hx ⟨k, e3⟩, e1, e2, e3⟩
+      · exact .inr ⟨_, me, rfl, rfl, rfl⟩
+    · intro f hf
+      rcases h5 f hf with h | h | ⟨x, hx, e1, e2, e3⟩
+      · exact .inl h
+      · right; left; simp [h]
+      · exact .inr (.inr ⟨x, keep x hx ⟨f.k, e3⟩, e1, e2, e3⟩)
+  | reg k =>
+    simp only [stepTh]
+    obtain ⟨h1, h2, h3, h4, h5⟩ := hL
+    have hmine := h1 _ htm k rfl
+    simp only at hmine
+    -- a witness "thread of src→dst at reg k" may be this very call: the connection is in its table now
+    have wit : ∀ x ∈ s.thr, ∀ a b k', x.src = b ∧ x.dst = a ∧ x.pc = .reg k' →
+        k' ∈ addConn s.table src dst k b a ∨ x ∈ s.thr.set i ⟨src, dst, vv, .xmit k⟩ := by
+      intro x hx a b k' ⟨e1, e2, e3⟩
+      by_cases e : x = ⟨src, dst, vv, .reg k⟩
+      · subst e; simp at e1 e2 e3
+        left; rw [mem_addConn]; right; exact ⟨e1.symm, e2.symm, e3.symm⟩
+      · right; exact mem_set_other hx ht e
+    refine ⟨?_, ?_, ?_, ?_, ?_⟩
+    · intro x hx k' hk
+      rcases mem_set_cases hx with e | hm
+      · subst e; simp at hk
+      · rcases h1 x hm k' hk with h | h
+        · exact .inl h
+        · right; rw [mem_addConn]; exact .inl h
+    · intro x hx k' hk
+      rcases mem_set_cases hx with e | hm
+      · subst e; simp at hk; subst hk; rw [mem_addConn]; right; exact ⟨rfl, rfl, rfl⟩
+      · rw [mem_addConn]; exact .inl (h2 x hm k' hk)
+    · intro a b k' hk
+      rw [mem_addConn] at hk
+      rcases hk with hk | ⟨rfl, rfl, rfl⟩
+      · rcases h3 a b k' hk with h | h | ⟨x, hx, e1, e2, e3⟩
+        · left; rw [mem_addConn]; exact .inl h
+        · exact .inr (.inl h)
+        · rcases wit x hx a b k' ⟨e1, e2, e3⟩ with h | h
+          · exact .inl h
+          · exact .inr (.inr ⟨x, h, e1, e2, e3⟩)
+      · rcases hmine with h | h
+        · exact .inr (.inl h)
+        · left; rw [mem_addConn]; exact .inl h
+    · intro k' a b hk
+      rcases h4 k' a b hk with h | ⟨x, hx, e1, e2, e3⟩
+      · left; rw [mem_addConn]; exact .inl h
+      · rcases wit x hx b a k' ⟨e1, e2, e3⟩ with h | h
+        · exact .inl h
+        · exact .inr ⟨x, h, e1, e2, e3⟩
+    · intro f hf
+      rcases h5 f hf with h | h | ⟨x, hx, e1, e2, e3⟩
+      · left; rw [mem_addConn]; exact .inl h
+      · exact .inr (.inl h)
+      · rcases wit x hx f.src f.dst f.k ⟨e1, e2, e3⟩ with h | h
+        · exact .inl h
+        · exact .inr (.inr ⟨x, h, e1, e2, e3⟩)
+  | xmit k =>
+    simp only [stepTh]
+    have hk := hL.xmitReg _ htm k rfl
+    simp only at hk
+    have hmate := hL.tableMate src dst k hk
+    have := live_thread_plain s i ⟨src, dst, vv, .xmit k⟩ .done hL ht (by intro k; simp) (by intro k; simp) (by intro k h; simp at h)
+    obtain ⟨h1, h2, h3, h4, h5⟩ := this
+    refine ⟨h1, h2, h3, h4, ?_⟩
+    intro f hf
+    simp at hf
+    rcases hf with hf | rfl
+    · exact h5 f hf
+    · simp only
+      rcases hmate with h | h | ⟨x, hx, e1, e2, e3⟩
+      · exact .inl h
+      · exact .inr (.inl h)
+      · refine .inr (.inr ⟨x, ?_, e1, e2, e3⟩)
+        refine mem_set_other hx ht ?_
+        intro e; subst e; simp at e3
+
+theorem live_step (s s' : St) (a : Act) (hL : Live s) (hs : step s a = some s') : Live s' := by
+  cases a with
+  | send src dst v =>
+    simp [step] at hs; subst hs
+    obtain ⟨h1, h2, h3, h4, h5⟩ := hL
+    refine ⟨?_, ?_, ?_, ?_, ?_⟩
+    · intro x hx k hk
+      simp at hx
+      rcases hx with hx | rfl
+      · exact h1 x hx k hk
+      · simp at hk
+    · intro x hx k hk
+      simp at hx
+      rcases hx with hx | rfl
+      · exact h2 x hx k hk
+      · simp at hk
+    · intro a b k hk
+      rcases h3 a b k hk with h | h | ⟨x, hx, e⟩
+      · exact .inl h
+      · exact .inr (.inl h)
+      · exact .inr (.inr ⟨x, by simp [hx], e⟩)
+    · intro k a b hk
+      rcases h4 k a b hk with h | ⟨x, hx, e⟩
+      · exact .inl h
+      · exact .inr ⟨x, by simp [hx], e⟩
+    · intro f hf
+      rcases h5 f hf with h | h | ⟨x, hx, e⟩
+      · exact .inl h
+      · exact .inr (.inl h)
+      · exact .inr (.inr ⟨x, by simp [hx], e⟩)
+  | thread i =>
+    simp only [step] at hs
+    split at hs
+    · rename_i t ht
+      split at hs
+      · simp at hs
+      · simp at hs; subst hs; exact live_thread s i t hL ht ‹_›
+    · simp at hs
+  | accept j =>
+    simp only [step] at hs
+    split at hs
+    · rename_i k a b hj
+      simp at hs; subst hs
+      obtain ⟨h1, h2, h3, h4, h5⟩ := hL
+      have hmem : (k, a, b) ∈ s.dialed := List.mem_of_getElem? hj
+      -- an entry of `dialed` other than the accepted one stays; the accepted one is now in the acceptor's table
+      have dl : ∀ k' a' b', (k', a', b') ∈ s.dialed →
+          (k', a', b') ∈ s.dialed.eraseIdx j ∨ k' ∈ addConn s.table b a k b' a' := by
+        intro k' a' b' h
+        by_cases e : (k', a', b') = (k, a, b)
+        · cases e; right; rw [mem_addConn]; right; exact ⟨rfl, rfl, rfl⟩
+        · left; exact mem_eraseIdx_other h hj e
+      refine ⟨?_, ?_, ?_, ?_, ?_⟩
+      · intro x hx k' hk
+        rcases h1 x hx k' hk with h | h
+        · rcases dl _ _ _ h with h | h
+          · exact .inl h
+          · exact .inr h
+        · right; rw [mem_addConn]; exact .inl h
+      · intro x hx k' hk
+        rw [mem_addConn]; exact .inl (h2 x hx k' hk)
+      · intro a' b' k' hk
+        rw [mem_addConn] at hk
+        rcases hk with hk | ⟨rfl, rfl, rfl⟩
+        · rcases h3 a' b' k' hk with h | h | h
+          · left; rw [mem_addConn]; exact .inl h
+          · rcases dl _ _ _ h with h | h
+            · exact .inr (.inl h)
+            · exact .inl h
+          · exact .inr (.inr h)
+        · rcases h4 k' b' a' hmem with h | h
+          · left; rw [mem_addConn]; exact .inl h
+          · exact .inr (.inr h)
+      · intro k' a' b' hk
+        rcases h4 k' a' b' (mem_of_mem_eraseIdx hk) with h | h
+        · left; rw [mem_addConn]; exact .inl h
+        · exact .inr h
+      · intro f hf
+        rcases h5 f hf with h | h | h
+        · left; rw [mem_addConn]; exact .inl h
+        · rcases dl _ _ _ h with h | h
+          · exact .inr (.inl h)
+          · exact .inl h
+        · exact .inr (.inr h)
+    · simp at hs
+  | recv j =>
+    simp only [step] at hs
+    split at hs
+    · split at hs
+      · simp at hs; subst hs
+        obtain ⟨h1, h2, h3, h4, h5⟩ := hL
+        exact ⟨h1, h2, h3, h4, fun f hf => h5 f (mem_of_mem_eraseIdx hf)⟩
+      · simp at hs
+    · simp at hs
+
+theorem live_run (as : List Act) (s : St) (h : Live s) : Live (run s as) := by
+  induction as generalizing s with
+  | nil => exact h
+  | cons a as ih =>
+    simp only [run]
+    split
+    · exact ih _ (live_step _ _ _ h ‹_›)
+    · exact ih _ h
+
+/-- nothing can move any more: every `Send` call has returned, no listener callback is pending, no
+reception is enabled -/
+def Quiescent (s : St) : Prop :=
+  (∀ t ∈ s.thr, t.pc = .done) ∧ s.dialed = [] ∧ ∀ j, step s (.recv j) = none
+
+/-- **nothing is stuck between two servers**: when no action is enabled any more, no envelope is in
+flight — an envelope written on a connection always finds (or will find) the receive goroutine of
+its destination, whichever side dialled the connection and in whatever order the two ends registered
+it. -/
+theorem c01_net_nothing_in_flight_at_quiescence (as : List Act) (hq : Quiescent (run {} as)) :
+    (run {} as).wire = [] := by
+  have hL := live_run as {} live_init
+  generalize run {} as = s at *
+  obtain ⟨hd, hdl, hr⟩ := hq
+  cases hw : s.wire with
+  | nil => rfl
+  | cons f rest =>
+    exfalso
+    have hf : f ∈ s.wire := by simp [hw]
+    rcases hL.flightMate f hf with h | h | ⟨x, hx, _, _, e3⟩
+    · have := hr 0
+      simp [step, hw, h] at this
+    · simp [hdl] at h
+    · have := hd x hx
+      rw [this] at e3; simp at e3
+
+/-- **exactly once, at the addressed server, with the sender's identity**: once nothing can move,
+every envelope handed to `Send(a → b)` has been dispatched at `b` exactly as often as it was sent,
+with `a` attached as the sender — for every number of concurrent senders, connections per pair of
+servers (racing first sends, simultaneous opens) and self-sends. -/
+theorem c01_net_quiescent_exactly_once (as : List Act) (hq : Quiescent (run {} as)) (a b v : Nat) :
+    (run {} as).dispatched.count (b, a, v) = (run {} as).sent.count (a, b, v) := by
+  have hc := c01_net_conservation as a b v
+  have hw := c01_net_nothing_in_flight_at_quiescence as hq
+  simp only at hc
+  have h0 : (run {} as).thr.countP (carrying a b v) = 0 := by
+    rw [List.countP_eq_zero]
+    intro t ht
+    simp [carrying, hq.1 t ht]
+  rw [hw, h0] at hc
+  simp at hc; omega
+
+/-- **and nowhere else**: whatever a server's dispatcher is handed was sent to that server, by the
+server whose identity is attached (at every moment, not only at quiescence) -/
+theorem c01_net_dispatched_was_sent (as : List Act) (srv from_ v : Nat)
+    (h : (srv, from_, v) ∈ (run {} as).dispatched) : (from_, srv, v) ∈ (run {} as).sent := by
+  have hc := c01_net_conservation as from_ srv v
+  simp only at hc
+  have : 0 < (run {} as).dispatched.count (srv, from_, v) := List.count_pos_iff.mpr h
+  exact List.count_pos_iff.mp (by omega)
+
+theorem table_grows_step (s s' : St) (a : Act) (hs : step s a = some s') (x y : Nat) :
+    ∃ l, s'.table x y = s.table x y ++ l := by
+  cases a with
+  | send src dst v => simp [step] at hs; subst hs; exact ⟨[], by simp⟩
+  | thread i =>
+    simp only [step] at hs
+    split at hs
+    · rename_i t _
+      split at hs
+      · simp at hs
+      · simp at hs; subst hs
+        obtain ⟨src, dst, vv, pc⟩ := t
+        cases pc with
+        | lookup =>
+          simp only [stepTh]
+          split
+          · exact ⟨[], by simp⟩
+          · split <;> exact ⟨[], by simp⟩
+        | dial => exact ⟨[], by simp [stepTh]⟩
+        | reg k =>
+          simp only [stepTh, addConn]
+          by_cases h : x = src ∧ y = dst
+          · obtain ⟨rfl, rfl⟩ := h; exact ⟨[k], by simp⟩
+          · exact ⟨[], by simp [h]⟩
+        | xmit k => exact ⟨[], by simp [stepTh]⟩
+        | done => exact ⟨[], by simp [stepTh]⟩
+    · simp at hs
+  | accept j =>
+    simp only [step] at hs
+    split at hs
+    · rename_i k a b _
+      simp at hs; subst hs
+      simp only [addConn]
+      by_cases h : x = b ∧ y = a
+      · obtain ⟨rfl, rfl⟩ := h; exact ⟨[k], by simp⟩
+      · exact ⟨[], by simp [h]⟩
+    · simp at hs
+  | recv j =>
+    simp only [step] at hs
+    split at hs
+    · split at hs
+      · simp at hs; subst hs; exact ⟨[], by simp⟩
+      · simp at hs
+    · simp at hs
+
+/-- **the first connection stays the first**: once server `x` has a connection with peer `y`, every
+later `Send(x → y)` uses that same connection, whatever else is dialled, accepted or registered
+afterwards (tables are only appended to; nothing fails, so nothing is removed) -/
+theorem c01_net_first_connection_stable (as bs : List Act) (x y k : Nat)
+    (h : ((run {} as).table x y).head? = some k) : ((run (run {} as) bs).table x y).head? = some k := by
+  generalize run {} as = s at *
+  induction bs generalizing s with
+  | nil => exact h
+  | cons b bs ih =>
+    simp only [run]
+    split
+    · rename_i s' hs
+      apply ih
+      obtain ⟨l, hl⟩ := table_grows_step s s' b hs x y
+      rw [hl]
+      cases hst : s.table x y with
+      | nil => rw [hst] at h; simp at h
+      | cons z zs => rw [hst] at h; simpa using h
+    · exact ih s h
+
+/-- non-vacuity: servers 1 and 2 open connections to each other at the same time (two connections, both
+tables hold two entries), a third send uses the first one; server 1 also sends to itself; everything
+is dispatched once, at the right server, and the run is quiescent -/
+def openBoth : List Act :=
+  [.send 1 2 10, .send 2 1 20, .thread 0, .thread 1, .thread 0, .thread 1, .thread 0, .thread 1, .thread 0, .thread 1,
+   .accept 0, .accept 0, .recv 0, .recv 0, .send 1 2 11, .thread 2, .thread 2, .recv 0, .send 1 1 12, .thread 3]
+
+example : (run {} openBoth).dispatched = [(2, 1, 10), (1, 2, 20), (2, 1, 11), (1, 1, 12)] ∧
+    (run {} openBoth).table 1 2 = [0, 1] ∧ (run {} openBoth).table 2 1 = [1, 0] ∧ (run {} openBoth).wire = [] ∧
+    (run {} openBoth).dialed = [] ∧ (run {} openBoth).thr.all (fun t => t.pc == .done) := by decide
+
+example : Quiescent (run {} openBoth) := by
+  refine ⟨by decide, by decide, fun j => ?_⟩
+  have : (run {} openBoth).wire = [] := by decide
+  simp [step, this]
+
+/-- two concurrent first sends both dial: two connections 1 → 2, later sends use the first -/
+example : (run {} [.send 1 2 10, .send 1 2 11, .thread 0, .thread 1, .thread 0, .thread 1, .thread 0, .thread 1,
+      .thread 0, .thread 1, .accept 0, .accept 0, .recv 0, .recv 0]).table 1 2 = [0, 1] := by decide
+
+/-! #### the destination's dispatcher and `Overlay.Process` -/
+
+/-- **only protocol messages reach `TransmitMsg`, and every protocol message does**: the kind of the
+envelope alone decides; control messages, configuration messages and service messages never enter
+the instance path, whatever services are registered -/
+theorem c01_route_proto (services : List Nat) (k : Kind) :
+    route services k = .transmitMsg ↔ k = .proto := by
+  cases k <;> simp [route]
+  split <;> simp
+
+/-- a service message is handed to the service manager iff some service registered its type -/
+theorem c01_route_service (services : List Nat) (t : Nat) :
+    route services (.service t) = (if t ∈ services then .serviceManager t else .noProcessor) := rfl
+
+/-- **unchanged content, unchanged tokens**: what `Overlay.Process` recovers from the wire form
+`SendToTreeNode` produced is the payload that was sent, the sender's token, and the sender's token
+with only the node replaced by the destination node — given that the codec round-trips (C03). -/
+theorem c01_wrap_unwrap (enc : Nat → List Nat) (dec : List Nat → Option Nat) (hcodec : ∀ m, dec (enc m) = some m)
+    (run me dstNode msg : Nat) :
+    unwrap dec (wrap enc run me dstNode msg) = some ((run, me), (run, dstNode), msg) := by
+  simp [unwrap, wrap, hcodec]
+
+/-! #### a send operation over the network: the two models composed -/
+
+theorem count_map_envelopes (l : List Nat) (host : Nat → Nat) (r src srv : Nat) (code : Send.Token → Nat)
+    (hcode : ∀ x y, code x = code y → x = y) (j : Nat) :
+    (l.map (fun j' => (src, host j', code ⟨r, j'⟩))).count (src, srv, code ⟨r, j⟩)
+      = if srv = host j then l.count j else 0 := by
+  induction l with
+  | nil => simp
+  | cons x xs ih =>
+    simp only [List.map_cons, List.count_cons, ih]
+    by_cases hx : x = j
+    · subst hx
+      by_cases hs : srv = host x
+      · subst hs; simp
+      · have : ¬ ((src, host x, code ⟨r, x⟩) = (src, srv, code ⟨r, x⟩)) := by
+          intro h; cases h; exact hs rfl
+        simp [hs]; exact fun h => absurd h.symm hs
+    · have hne : ¬ ((src, host x, code ⟨r, x⟩) = (src, srv, code ⟨r, j⟩)) := by
+        intro h
+        have h3 : code ⟨r, x⟩ = code ⟨r, j⟩ := (Prod.mk.inj (Prod.mk.inj h).2).2
+        have h4 := hcode _ _ h3
+        exact hx (Send.Token.mk.inj h4).2
+      have hbeq : ((src, host x, code ⟨r, x⟩) == (src, srv, code ⟨r, j⟩)) = false := by
+        cases hb : ((src, host x, code ⟨r, x⟩) == (src, srv, code ⟨r, j⟩))
+        · rfl
+        · exact absurd (by simpa using hb) hne
+      have hxj : (x == j) = false := by simp [hx]
+      simp [hbeq, hxj]
+
+/-- **from the send operation to the destination servers' dispatchers**: let the `Send` calls of a
+network schedule be exactly the envelopes one send operation of node `me` in run `r` produces
+(`Send.envelopes`: token with only the node changed, addressed to the node's host; `code` is any
+injective naming of tokens as envelope contents).  Once the network is quiescent, the envelope for
+node `j` has been dispatched at `host j` exactly as often as the operation addresses `j` — once for
+children / parent / broadcast (`c01_send_children_exact`, `…bcast_exact`) — carrying the sender's
+server as identity, and at no other server. -/
+theorem c01_send_over_net (t : Send.Tree) (host : Nat → Nat) (r me : Nat) (p : Send.Pattern)
+    (code : Send.Token → Nat) (hcode : ∀ x y, code x = code y → x = y)
+    (as : List Act) (hq : Quiescent (run {} as))
+    (hsent : ∀ a b v, (run {} as).sent.count (a, b, v) =
+      ((Send.envelopes t host r me p).map (fun e => (host me, e.1, code e.2))).count (a, b, v))
+    (srv j : Nat) :
+    (run {} as).dispatched.count (srv, host me, code ⟨r, j⟩) = if srv = host j then (Send.dests t me p).count j else 0 := by
+  rw [c01_net_quiescent_exactly_once as hq, hsent]
+  simp only [Send.envelopes, List.map_map]
+  exact count_map_envelopes (Send.dests t me p) host r (host me) srv code hcode j
+
+end Net
+
 /-! ### the code regions the model stands for
 Regenerated from /repo's source on every run (`harness/cmd/astfacts` → `OnetVerif/Shapes.lean`): the
 calls that matter for synchronisation and data flow, the lock regions and (for decision logic) the
